@@ -498,7 +498,7 @@ class Env:
                     for e in ctx().events:
                         if e is cut:
                             break
-                        if e[0] in ('div', 'def', 'sqrt', 'log', 'index'):
+                        if e[0] in ('div', 'def', 'sqrt', 'log'):
                             n_before += 1
                     defs = ctx().defs[since:][:max(0, n_before - since)] if since <= n_before else []
             cond = SB(z3.And(*defs)) if defs else True
@@ -1132,6 +1132,7 @@ def match_known(known, prop, cfg_name, check, vals, rep):
 def validate_config(scen, cfg, lib, seed, n=3, tries=40):
     """Differential validation of the translator/model on concrete inputs (DESIGN §4.2)."""
     ok, bad, msgs = 0, 0, []
+    exc_agree = []
     rng = _random.Random(seed)
     t = 0
     while ok + bad < n and t < tries:
@@ -1152,6 +1153,11 @@ def validate_config(scen, cfg, lib, seed, n=3, tries=40):
             msgs.append(f'status model={e1.status} {e1.exc} real={e2.status} {e2.exc} values={_jsonable(vals)}'
                         + (('\n' + e1.tb) if getattr(e1, 'tb', None) else '') + (('\n' + e2.tb) if getattr(e2, 'tb', None) else ''))
             continue
+        if e1.status == 'exception':
+            # model and real library raise the same exception before the scenario finishes: the model agrees, but the sample
+            # validates none of the checks; an uncaught exception on a valid random input needs attention either way
+            exc_agree.append(f'{e1.exc} values={_jsonable(vals)}')
+            continue
         agree, why = traces_agree(e1.trace, e2.trace)
         d2 = {n_: o for n_, o, _ in e2.checks}
         c1 = [(n_, o) for n_, o, _ in e1.checks if n_ in d2]
@@ -1161,4 +1167,7 @@ def validate_config(scen, cfg, lib, seed, n=3, tries=40):
             msgs.append(f'trace mismatch: {why or [x for x in zip(c1, c2) if x[0] != x[1]][:3]} values={_jsonable(vals)}')
             continue
         ok += 1
+    if exc_agree:
+        bad += 1
+        msgs.append(f'uncaught exception on {len(exc_agree)} random valid input(s), on the model and on the real library alike: {exc_agree[0]}')
     return ok, bad, msgs
